@@ -12,6 +12,12 @@ COMMON_NOTE = (
 )
 
 CHECKS = {
+    "C15": dict(
+        technique="bounded-exhaustive enumeration of (item kind x sidecar subset x sidecar content) with an independent Gopher+ block parser as oracle, on the implementation",
+        text="For 8 item kinds (text, HTML, compressed, directory, mailbox folder and message, ZIP member and directory) every subset of the four sidecar files, every sidecar content of <=3 lines over 9 line shapes (including lines that look like block headers, leading/trailing blanks, empty lines, non-ASCII, CRLF) "
+             "and pairs of sidecars are served as ! on the item, $ on its parent and + ; the parsed block structure must have +INFO equal to the plain Gopher menu line, one +ADMIN, a +VIEWS naming the reference MIME type and size//1024, exactly one block per existing sidecar with exactly its lines, and a truthful + length.",
+        design_ref="DESIGN.md 3/C15",
+    ),
     "C19": dict(
         technique="exhaustive enumeration of configurations x single-fault injection at every privileged call of the recorded start-up trace, judged by a reference model of the required order",
         text="For all 8 combinations of usechroot/setuid/setgid, for init_security() alone and for the whole initialize() (real bind on port 0, TLS off and on), start-up is run with every privileged entry point substituted by a recorder, "
